@@ -190,6 +190,59 @@ def gen_js(rng):
     return b"".join(rng.choice(pieces) for _ in range(rng.randint(0, 14)))
 
 
+def through_collapse(ctx):
+    """the atoms stay exactly string characters / attributes while minimize-collapse-brace works on the file: what is
+    reducible in every candidate (in particular in the testcase re-split after a brace collapse) is what the reference
+    tokenizer finds in that candidate's own bytes"""
+    from .. import strat
+    rng = ctx.rng
+    datas = {"jsstr": [b'var a = "abXd"; function f() {\n}\nvar b = "efYh";\n', b"s = 'a{ }b' + \"c\"; if (x) {\n \n}\nt = 'd';\n",
+                       b'// DDBEGIN\nu = "p"; g{\n\n}; v = \'qr\';\n// DDEND\n'],
+             "attrs": [b'<a b="1" c=\'{ }\'>{\n}<d e=f g>\n', b"<p q=r>\n{\n \n}\n<s t='u' v>\n"]}
+    for kind, ds in datas.items():
+        for data in ds:
+            res = loaders.real_load(kind, data)
+            if res[0] != "ok":
+                continue
+            f = strat.fields(res[1])
+            for p in (0.3, 0.6, 0.9):
+                for _rep in range(3):
+                    seq = [rng.random() < p for _ in range(97)]
+                    tc = strat.testcase_from_fields(kind, f)
+                    tc.filename = str(loaders.scratch() / ("c16-collapse" + (".js" if kind == "jsstr" else ".html")))
+                    run = strat.run_real("minimize-collapse-brace", {}, tc, lambda k, c, seq=seq: seq[k % 97] or (b"{ }" in c and k < 30),
+                                         max_tests=2000)
+                    ctx.evaluations += 1
+                    ctx.bump("through-collapse:" + kind)
+                    if run.error:
+                        continue
+                    for a in run.atts:
+                        if a["tag"] != 3:
+                            continue    # only the re-split testcase is a fresh tokenisation of its own bytes
+                        c = a["cand"]
+                        whole = c[0] + b"".join(c[1]) + c[3]
+                        case = dict(splitter=kind, data=common.enc_bytes(whole), via="minimize-collapse-brace re-split", original=common.enc_bytes(data))
+                        t = strat.mk_like(tc, c)
+                        if kind == "jsstr":
+                            body = whole
+                            if b"DDBEGIN" in whole:
+                                lines = loaders.py_splitlines(whole)
+                                i = next(k for k, l in enumerate(lines) if b"DDBEGIN" in l)
+                                j = next(k for k in range(i + 1, len(lines)) if b"DDEND" in lines[k])
+                                off = len(b"".join(lines[: i + 1]))
+                                want = [(x + off, y + off) for x, y in spec_js(b"".join(lines[i + 1: j]))]
+                            else:
+                                want = spec_js(body)
+                            got = reducible_spans(t)
+                            ctx.bump("through-collapse:resplit-checked")
+                            if got != want:
+                                ctx.fail("js-atoms", f"after a brace collapse the re-split testcase has reducible spans {got} of {whole!r}; "
+                                         f"the reference tokenizer gives {want}", case)
+                        else:
+                            check_attrs(ctx, whole, t, case)
+                            ctx.bump("through-collapse:resplit-checked")
+
+
 def search(ctx):
     for d in loaders.all_strings(JS, 5):
         one(ctx, "jsstr", d, do_model=False)
@@ -216,6 +269,7 @@ def run(ctx) -> int:
     for _ in range(120000 if ctx.thorough else 15000):
         one(ctx, "attrs", gen_doc(rng))
         one(ctx, "jsstr", gen_js(rng))
+    through_collapse(ctx)
     for _ in range(3000 if ctx.thorough else 600):
         body = gen_js(rng).replace(b"DDBEGIN", b"").replace(b"DDEND", b"")
         one(ctx, "jsstr", b"pre 'x'\n// DDBEGIN\n" + body + b"\n// DDEND '\npost\"\n")
